@@ -912,6 +912,11 @@ class ExprMixin:
                     else:
                         out.extend(self.binop(s2, op, av, bv, node))
             return out
+        if isinstance(op, ast.Mult):
+            # sequence repetition: list * int / int * list is a NEW list (its length is not modelled)
+            for x, y in ((a, b), (b, a)):
+                if isinstance(x, VRef) and isinstance(st.deref(x), HList) and isinstance(y, (VInt, VBool)):
+                    return [(st, st.alloc(HList(seq=fresh("repeated", SeqU))))]
         raise Unsupported(f"binary {type(op).__name__} on {type(a).__name__}, {type(b).__name__}")
 
     # ---------------------------------------------------------------- attribute / subscript
